@@ -37,7 +37,8 @@ package interfaces
 //@   ensures true
 
 //@ iface interfaces.ElectionScheduler.Stop
-//@   ensures true
+//@   modifies ghost:schedStopped
+//@   ensures schedStopped
 
 //@ iface interfaces.ElectionScheduler.RegisterOnElection
 //@   ensures true
